@@ -247,6 +247,81 @@ pub async fn rpc_service_run<S: io::AsyncRead + io::AsyncWrite + Send>(
     }
 }
 
+/// Runs a `Mux` (one accept capability 0 with one stream, `rpc::MUX_CONFIG`) over `transport`, accepts one transient
+/// stream and runs the real `frame::mux_recv_proto::<T>` on its read half, `T` selected by name.
+/// `Ok((what was decoded, size))` / `Err(error chain)`.
+pub async fn mux_recv_named<S: io::AsyncRead + io::AsyncWrite + Send>(
+    ctx: &ctx::Ctx,
+    transport: S,
+    ty: &str,
+    max_size: usize,
+) -> Result<(String, usize), String> {
+    async fn recv<T: ProtoFmt>(
+        ctx: &ctx::Ctx,
+        read: &mut mux::ReadStream,
+        max_size: usize,
+        f: impl FnOnce(&T) -> String,
+    ) -> Result<(String, usize), String> {
+        frame::mux_recv_proto::<T>(ctx, read, max_size)
+            .await
+            .map(|(v, n)| (f(&v), n))
+            .map_err(|err| format!("{err:#}"))
+    }
+    let queue = mux::StreamQueue::new(ctx, 1, limiter::Rate::INF);
+    let m = mux::Mux {
+        cfg: Arc::new(rpc::MUX_CONFIG.clone()),
+        accept: [(0, queue.clone())].into(),
+        connect: BTreeMap::new(),
+    };
+    let res: Result<Result<(String, usize), String>, ctx::Canceled> =
+        zksync_concurrency::scope::run!(ctx, |ctx, s| async {
+            s.spawn_bg(async {
+                let _ = m.run(ctx, transport).await;
+                Ok(())
+            });
+            let mut stream = queue.open(ctx).await?;
+            let read = &mut stream.read;
+            Ok(match ty {
+                "rpc.push_validator_addrs.Req" => {
+                    recv::<rpc::push_validator_addrs::Req>(ctx, read, max_size, |r| {
+                        format!("addrs:{}", r.0.len())
+                    })
+                    .await
+                }
+                "rpc.get_block.Resp" => {
+                    recv::<rpc::get_block::Resp>(ctx, read, max_size, |r| {
+                        if r.0.is_some() { "block:some" } else { "block:none" }.to_string()
+                    })
+                    .await
+                }
+                "rpc.get_block.Req" => {
+                    recv::<rpc::get_block::Req>(ctx, read, max_size, |r| format!("get:{}", r.0)).await
+                }
+                "rpc.ping.Req" => {
+                    recv::<rpc::ping::Req>(ctx, read, max_size, |_| "ping".to_string()).await
+                }
+                "rpc.consensus.Req" => {
+                    recv::<rpc::consensus::Req>(ctx, read, max_size, |r| {
+                        format!("consensus:{}", r.0.msg.label())
+                    })
+                    .await
+                }
+                "rpc.push_block_store_state.Req" => {
+                    recv::<rpc::push_block_store_state::Req>(ctx, read, max_size, |r| {
+                        format!("state:{}..{:?}", r.state.first, r.state.last.as_ref().map(|l| l.number().0))
+                    })
+                    .await
+                }
+                "rpc.push_tx.Req" => {
+                    recv::<rpc::push_tx::Req>(ctx, read, max_size, |r| format!("tx:{}", r.0 .0.len())).await
+                }
+                _ => Err(format!("unknown type {ty}")),
+            })
+        })
+        .await;
+    res.unwrap_or_else(|_| Err("canceled".to_string()))
+}
+
 fn dec<T: ProtoFmt>(bytes: &[u8]) -> Result<T, String> {
     zksync_protobuf::decode::<T>(bytes).map_err(|err| format!("{err:#}"))
 }
